@@ -37,4 +37,8 @@ t = open(p).read()
 t = fill(t, "SEEDTABLE", seed_table())
 t = fill(t, "PROPTABLE", prop_table())
 open(p, "w").write(t)
+import re as _re
+_n = len(os.listdir(os.path.join(ROOT, 'seeded')))
+_s = open(p).read()
+open(p, 'w').write(_re.sub(r"\*\*Seeded changes\.\*\* \d+ changes written", "**Seeded changes.** %d changes written" % _n, _s))
 print("tables regenerated")
